@@ -9,11 +9,12 @@
 //               before the run starts; <workers> scheduler threads serve all executors (each function runs inside
 //               a RunnerScope of the executor it was handed to), so coroutines of one executor may run in parallel.
 //     w<x>[t]     co_await futex.wait(x)            t: with on_suspend(callback storing the cancellation token)
+//     u<x>[t]     the same on a second futex (both futexes draw their nodes from the one DepositBox)
 //     f<k> F<k>   co_await future k (shared copy / moved)
 //     a<e>.<k>    co_await child task bound to executor e ('i' = inherit) whose body awaits future k ('-' = nothing)
 //     c<e>.<k>    co_await Cancellable<Task<int>>(same child).on_suspend(callback storing the token)
 //   threads     '|'-separated client threads, ops ','-separated ("-" = none):
-//     W1 WA       futex.wake_one() / futex.wake_all()
+//     W1 WA       futex.wake_one() / futex.wake_all()          X1 XA: the same on the second futex
 //     K<i>.<j>    cancel the token of op j of coroutine i   (result '-' when the token is not published yet)
 //     V<x>        futex.atomic_value().store(x)
 //     S<k>        promise k .set_value(100 + k)
@@ -25,7 +26,9 @@
 //   <case-id> ok steps=<n> pre=<n> | <client results> / <coroutine progress before the closer> | <monitors> slots=<end()>
 // Monitors (1 = holds):
 //   once      every co_await returned at most once; no coroutine resumed while it was running; no token cancelled twice
-//   acct      resumed futex suspensions == sum of wake_one/wake_all results + successful futex cancels
+//   acct      per futex: resumed suspensions of waits on it == sum of its wake_one/wake_all results + successful cancels
+//             of its waits (a wake returns n iff it resumed n waiters of THAT futex; nobody is resumed by a futex it does
+//             not wait on)
 //   exec      every continuation after a co_await runs inside the executor the coroutine is bound to
 //   value     future / child task / cancellable results are the awaited values; optional empty iff a cancel succeeded
 //   nosusp    a wait with a non-matching value continues without suspending (and publishes no token); matching suspends
@@ -33,6 +36,8 @@
 //   wall      after wake_all returns every waiter queued when it began is unlinked and taken
 //   leak      deposit-box slots in use (both boxes) at the end == at the start of the case
 //   stranded  every coroutine finished after the closer's wake_all rounds
+//   listwf    when nothing is in flight and at the end both waiter lists are well-formed doubly linked lists (first->prev ==
+//             head, node->prev == predecessor, no cycle, node->futex == this futex); empty at the end
 //   lostwake  when nothing is in flight and the last store to the futex word precedes the start of some wake_all(), no
 //             coroutine is suspended in a wait whose expected value differs from the word (compare + enqueue atomic)
 //   cbafter   await_suspend never fetches the on_suspend callback from an awaitable that the continuation has already
@@ -96,7 +101,7 @@ struct PoolExec : public Executor {
   int invoke(MoveOnlyFunction<void(void)>&& function) noexcept override;
 };
 
-struct COp { char k; int x = 0; bool tok = false; int e = -1; int fut = -1;
+struct COp { char k; int x = 0; bool tok = false; int e = -1; int fut = -1; int fx = 0;   // fx: which futex ('w' = 0, 'u' = 1)
   // ghost
   int returned = 0; bool on_exec = true; bool suspended = false; bool token_set = false; int cancels_true = 0;
   int value = 0; bool has_value = false; bool bad = false;
@@ -108,15 +113,16 @@ using NodeBox = DepositBox<CoFutex::Node>;
 using CanBox = DepositBox<BasicCancellable*>;
 
 struct World {
-  CoFutex futex;
+  CoFutex futex[2];     // both draw their nodes from the one DepositBox<Futex::Node>
   std::vector<PoolExec*> execs;
   std::vector<Coro> coros;
   std::vector<std::vector<TOp>> threads;
   std::vector<::babylon::Promise<int>*> promises; std::vector<Future<int>> futures;
+  long idle_ns = 1000;   // idle workers poll every 20 scheduler steps (priority strategy: a shorter period starves the rest), else every 2
   int queued = 0, busy = 0; size_t clients_done = 0; bool stop = false; uint64_t fn_seq = 0;
   // monitors
-  bool once = true, exec_ok = true, value_ok = true, nosusp = true, w1 = true, wall = true, cbafter = true, lostwake = true;
-  long wakes = 0, fcancels = 0, closer_wakes = 0; int tokens_published = 0;
+  bool once = true, exec_ok = true, value_ok = true, nosusp = true, w1 = true, wall = true, cbafter = true, lostwake = true, listwf = true;
+  long wakes[2] = {0, 0}, fcancels[2] = {0, 0}, closer_wakes[2] = {0, 0}; int tokens_published = 0;
   std::string detail;
   ptrdiff_t slot_delta = 0;
 
@@ -127,19 +133,31 @@ struct World {
     return sl->version.B::load(std::memory_order_relaxed);
   }
   // waiters currently linked and not taken: (node, id)
-  std::vector<std::pair<CoFutex::Node*, uint64_t>> healthy() {
+  std::vector<std::pair<CoFutex::Node*, uint64_t>> healthy(int fx) {
     std::vector<std::pair<CoFutex::Node*, uint64_t>> v;
     int guard = 0;
-    for (CoFutex::Node* n = futex._awaiter_head.next; n != nullptr && guard < 1000; n = n->next, ++guard)
+    for (CoFutex::Node* n = futex[fx]._awaiter_head.next; n != nullptr && guard < 1000; n = n->next, ++guard)
       if (slot_version(n) == n->id.version) v.push_back({n, n->id.version_and_value});
     return v;
   }
-  std::vector<std::pair<CoFutex::Node*, uint64_t>> linked() {
+  std::vector<std::pair<CoFutex::Node*, uint64_t>> linked(int fx) {
     std::vector<std::pair<CoFutex::Node*, uint64_t>> v;
     int guard = 0;
-    for (CoFutex::Node* n = futex._awaiter_head.next; n != nullptr && guard < 1000; n = n->next, ++guard)
+    for (CoFutex::Node* n = futex[fx]._awaiter_head.next; n != nullptr && guard < 1000; n = n->next, ++guard)
       v.push_back({n, n->id.version_and_value});
     return v;
+  }
+  // the waiter list of futex fx is a well-formed doubly linked list of waiters of THAT futex: first->prev == head,
+  // every other node's prev is its predecessor, no cycle, node->futex is this futex.  Called when nothing is in flight.
+  void check_list(int fx, const char* when) {
+    CoFutex::BasicNode* prev = &futex[fx]._awaiter_head;
+    int guard = 0;
+    for (CoFutex::Node* n = futex[fx]._awaiter_head.next; n != nullptr; n = n->next) {
+      if (++guard > 1000) { listwf = false; note(std::string("list-cycle-") + when + "-f" + std::to_string(fx)); return; }
+      if (n->prev != prev) { listwf = false; note(std::string("node-prev-wrong-") + when + "-f" + std::to_string(fx)); }
+      if (n->futex != &futex[fx]) { listwf = false; note(std::string("node-of-other-futex-") + when + "-f" + std::to_string(fx)); }
+      prev = n;
+    }
   }
 };
 
@@ -158,7 +176,7 @@ struct OnSuspend {
   uint64_t magic; World* w; int i; size_t j;
   void operator()(CoFutex::Cancellation t) const {
     if (magic != (C13_MAGIC ^ (uint64_t)(i * 131 + (int)j))) {
-      printf("%s ok steps=0 pre=0 | - / - | once=1 acct=1 exec=1 value=1 nosusp=1 w1=1 wall=1 leak=1 stranded=1 cbafter=0 lostwake=1 slots=0 "
+      printf("%s ok steps=0 pre=0 | - / - | once=1 acct=1 exec=1 value=1 nosusp=1 w1=1 wall=1 leak=1 stranded=1 cbafter=0 lostwake=1 listwf=1 slots=0 "
              "detail=on_suspend-callback-read-from-destroyed-awaitable\n", g_case_id.c_str());
       fflush(stdout);
       _exit(0);
@@ -186,9 +204,9 @@ Task<> body(World* w, int i) {
     switch (op.k) {
       case 'w':
         if (op.tok) {
-          co_await w->futex.wait((uint64_t)op.x).on_suspend(OnSuspend{C13_MAGIC ^ (uint64_t)(i * 131 + (int)j), w, i, j});
+          co_await w->futex[op.fx].wait((uint64_t)op.x).on_suspend(OnSuspend{C13_MAGIC ^ (uint64_t)(i * 131 + (int)j), w, i, j});
         } else {
-          co_await w->futex.wait((uint64_t)op.x);
+          co_await w->futex[op.fx].wait((uint64_t)op.x);
         }
         break;
       case 'f': { Future<int> f = w->futures[(size_t)op.fut]; op.value = co_await f; op.has_value = true; } break;
@@ -228,7 +246,7 @@ void worker(World* w, int me) {
       PoolExec* e = w->execs[(rot + k) % w->execs.size()];
       if (!e->q.empty()) { pick = e; break; }
     }
-    if (!pick) { usleep(1); continue; }
+    if (!pick) { struct timespec ts = {0, w->idle_ns}; nanosleep(&ts, nullptr); continue; }
     ++rot;
     auto* fn = pick->q.front(); pick->q.pop_front(); --w->queued; ++w->busy;
     uint64_t saved = g_fn; g_fn = ++w->fn_seq;
@@ -280,14 +298,15 @@ int main(int argc, char** argv) {
     unsigned long long seed = strtoull(f[1].c_str(), nullptr, 10);
     int strategy = atoi(f[2].c_str()); int nworkers = atoi(f[3].c_str()); int value0 = atoi(f[4].c_str());
     World* w = new World(); w->slot_delta = delta;
-    w->futex.value() = (uint64_t)value0;
+    w->idle_ns = strategy == 1 ? 1000 : 100;
+    w->futex[0].value() = (uint64_t)value0; w->futex[1].value() = (uint64_t)value0;
     int max_exec = 0, max_fut = -1;
     if (f[5] != "-") for (auto& cs : split(f[5], ';')) {
       Coro c; size_t colon = cs.find(':'); c.exec = atoi(cs.substr(0, colon).c_str());
       max_exec = std::max(max_exec, c.exec);
       for (auto& o : split(cs.substr(colon + 1), ',')) {
         COp op; op.k = o[0];
-        if (op.k == 'w') { op.x = atoi(o.c_str() + 1); op.tok = o.back() == 't'; }
+        if (op.k == 'w' || op.k == 'u') { op.fx = op.k == 'u'; op.k = 'w'; op.x = atoi(o.c_str() + 1); op.tok = o.back() == 't'; }
         else if (op.k == 'f' || op.k == 'F') { op.fut = atoi(o.c_str() + 1); }
         else { size_t dot = o.find('.'); std::string e = o.substr(1, dot - 1), k = o.substr(dot + 1);
                op.e = e == "i" ? -1 : atoi(e.c_str()); op.fut = k == "-" ? -1 : atoi(k.c_str());
@@ -302,7 +321,7 @@ int main(int argc, char** argv) {
       for (auto& o : split(ts, ',')) {
         TOp op; op.k = o[0];
         if (o == "-") continue;
-        if (op.k == 'W') op.a = o[1] == 'A' ? 1 : 0;
+        if (op.k == 'W' || op.k == 'X') { op.b = op.k == 'X'; op.k = 'W'; op.a = o[1] == 'A' ? 1 : 0; }   // b: futex index
         else if (op.k == 'K') { size_t dot = o.find('.'); op.a = atoi(o.substr(1, dot - 1).c_str()); op.b = atoi(o.substr(dot + 1).c_str()); }
         else if (op.k == 'V' || op.k == 'S' || op.k == 'Q') { op.a = atoi(o.c_str() + 1); if (op.k == 'S') max_fut = std::max(max_fut, op.a); }
         ops.push_back(op);
@@ -324,33 +343,33 @@ int main(int argc, char** argv) {
           switch (op.k) {
             case 'W':
               if (op.a == 0) {
-                auto before = w->healthy();
-                int r = w->futex.wake_one();
+                auto before = w->healthy(op.b);
+                int r = w->futex[op.b].wake_one();
                 if (r == 0) {
-                  auto after = w->healthy();
+                  auto after = w->healthy(op.b);
                   for (auto& b : before) for (auto& a : after) if (a == b) { w->w1 = false; w->note("wake_one=0-with-healthy-waiter"); }
                 }
-                w->wakes += r; op.res = std::to_string(r);
+                w->wakes[op.b] += r; op.res = std::to_string(r);
               } else {
                 op.bs = verif::stamp();
-                auto before = w->linked();
-                int r = w->futex.wake_all();
-                auto after = w->linked();
+                auto before = w->linked(op.b);
+                int r = w->futex[op.b].wake_all();
+                auto after = w->linked(op.b);
                 for (auto& b : before) {
                   for (auto& a : after) if (a == b) { w->wall = false; w->note("wake_all-left-waiter-linked"); }
                   if (b.first->id.version_and_value == b.second && w->slot_version(b.first) == b.first->id.version) { w->wall = false; w->note("wake_all-left-waiter-untaken"); }
                 }
-                w->wakes += r; op.res = std::to_string(r);
+                w->wakes[op.b] += r; op.res = std::to_string(r);
               }
               break;
             case 'K': {
               COp* o = (size_t)op.a < w->coros.size() && (size_t)op.b < w->coros[(size_t)op.a].ops.size() ? &w->coros[(size_t)op.a].ops[(size_t)op.b] : nullptr;
               if (!o || !o->token_set) { op.res = "-"; break; }
               bool r = o->k == 'w' ? o->ftok() : o->ctok();
-              if (r) { if (++o->cancels_true > 1) { w->once = false; w->note("token-cancelled-twice"); } if (o->k == 'w') ++w->fcancels; }
+              if (r) { if (++o->cancels_true > 1) { w->once = false; w->note("token-cancelled-twice"); } if (o->k == 'w') ++w->fcancels[o->fx]; }
               op.res = r ? "1" : "0";
             } break;
-            case 'V': w->futex.atomic_value().store((uint64_t)op.a, std::memory_order_release); op.es = verif::stamp(); op.res = "v"; break;
+            case 'V': w->futex[0].atomic_value().store((uint64_t)op.a, std::memory_order_release); op.es = verif::stamp(); op.res = "v"; break;
             case 'S': w->promises[(size_t)op.a]->set_value(100 + op.a); op.res = "s"; break;
             case 'Y': sched_yield(); op.res = "y"; break;
             case 'Q': while (w->tokens_published < op.a) usleep(1); op.res = "q"; break;
@@ -372,29 +391,32 @@ int main(int argc, char** argv) {
         uint64_t last_store = 0, last_wa = 0;
         for (auto& th : w->threads) for (auto& t : th) {
           if (t.k == 'V') last_store = std::max(last_store, t.es);
-          if (t.k == 'W' && t.a == 1) last_wa = std::max(last_wa, t.bs);
+          if (t.k == 'W' && t.a == 1 && t.b == 0) last_wa = std::max(last_wa, t.bs);
         }
-        uint64_t word = w->futex.value();
+        uint64_t word = w->futex[0].value();
         if (last_wa > last_store)
           for (size_t i = 0; i < w->coros.size(); ++i) {
             Coro& c = w->coros[i];
-            if (!c.done && c.pos < c.ops.size() && c.ops[c.pos].k == 'w' && (uint64_t)c.ops[c.pos].x != word) {
+            if (!c.done && c.pos < c.ops.size() && c.ops[c.pos].k == 'w' && c.ops[c.pos].fx == 0 && (uint64_t)c.ops[c.pos].x != word) {
               w->lostwake = false;
               w->note("suspended-on-non-matching-word-after-wake_all c" + std::to_string(i) + "." + std::to_string(c.pos));
             }
           }
       }
+      w->check_list(0, "quiescent"); w->check_list(1, "quiescent");
       size_t rounds = 2;
       for (auto& c : w->coros) rounds += c.ops.size();
       for (size_t r = 0; r < rounds; ++r) {
         bool all = true; for (auto& c : w->coros) all = all && c.done;
         if (all) break;
-        int n = w->futex.wake_all();
-        w->closer_wakes += n;
+        int n = 0;
+        for (int fx = 0; fx < 2; ++fx) { int k = w->futex[fx].wake_all(); w->closer_wakes[fx] += k; n += k; }
         quiesce(w);
         if (n == 0) break;
       }
       for (auto& c : w->coros) stranded_ok = stranded_ok && c.done;
+      w->check_list(0, "end"); w->check_list(1, "end");
+      if (stranded_ok) for (int fx = 0; fx < 2; ++fx) if (w->futex[fx]._awaiter_head.next != nullptr) { w->listwf = false; w->note("list-not-empty-at-end-f" + std::to_string(fx)); }
       use1_node = in_use(NodeBox::instance()); use1_can = in_use(CanBox::instance());
       slots_end = NodeBox::instance()._slot_id_allocator.end();
       w->stop = true;
@@ -405,13 +427,13 @@ int main(int argc, char** argv) {
     verif::Result r = verif::run(bodies, opt);
 
     // ---- post-run monitors
-    long resumed_susp = 0;
+    long resumed_susp[2] = {0, 0};
     for (size_t i = 0; i < w->coros.size(); ++i) for (size_t j = 0; j < w->coros[i].ops.size(); ++j) {
       COp& o = w->coros[i].ops[j];
       std::string at = "c" + std::to_string(i) + "." + std::to_string(j);
       if (o.returned > 1) w->once = false;
       if (o.k == 'w' && o.returned) {
-        if (o.suspended) ++resumed_susp;
+        if (o.suspended) ++resumed_susp[o.fx];
         bool may_change = false;
         for (auto& th : w->threads) for (auto& t : th) if (t.k == 'V') may_change = true;
         if (!may_change) {
@@ -428,8 +450,12 @@ int main(int argc, char** argv) {
       }
       if (!o.returned && o.cancels_true > 0 && stranded_ok) { w->value_ok = false; w->note("cancelled-but-never-resumed " + at); }
     }
-    bool acct = resumed_susp == w->wakes + w->fcancels + w->closer_wakes;
-    if (!acct) w->note("resumed=" + std::to_string(resumed_susp) + " wakes=" + std::to_string(w->wakes) + " cancels=" + std::to_string(w->fcancels) + " closer=" + std::to_string(w->closer_wakes));
+    bool acct = true;   // per futex: a wake of futex f resumes waiters of f only
+    for (int fx = 0; fx < 2; ++fx)
+      if (resumed_susp[fx] != w->wakes[fx] + w->fcancels[fx] + w->closer_wakes[fx]) {
+        acct = false;
+        w->note("f" + std::to_string(fx) + ":resumed=" + std::to_string(resumed_susp[fx]) + " wakes=" + std::to_string(w->wakes[fx]) + " cancels=" + std::to_string(w->fcancels[fx]) + " closer=" + std::to_string(w->closer_wakes[fx]));
+      }
     bool leak_ok = use0_node == use1_node && use0_can == use1_can;
     if (!leak_ok) w->note("slots-in-use node " + std::to_string(use0_node) + "->" + std::to_string(use1_node) + " cancellable " + std::to_string(use0_can) + "->" + std::to_string(use1_can));
     std::string out;
@@ -439,9 +465,9 @@ int main(int argc, char** argv) {
     }
     if (out.empty()) out = "-";
     for (auto& ch : w->detail) if (ch == ' ' || ch == '|') ch = '_';
-    if (!warming) printf("%s ok steps=%llu pre=%llu | %s / %s | once=%d acct=%d exec=%d value=%d nosusp=%d w1=%d wall=%d leak=%d stranded=%d cbafter=%d lostwake=%d slots=%u detail=%s\n",
+    if (!warming) printf("%s ok steps=%llu pre=%llu | %s / %s | once=%d acct=%d exec=%d value=%d nosusp=%d w1=%d wall=%d leak=%d stranded=%d cbafter=%d lostwake=%d listwf=%d slots=%u detail=%s\n",
            id.c_str(), (unsigned long long)r.steps, (unsigned long long)r.preemptions, out.c_str(), progress.empty() ? "-" : progress.c_str(),
-           w->once, acct, w->exec_ok, w->value_ok, w->nosusp, w->w1, w->wall, leak_ok, stranded_ok, w->cbafter, w->lostwake, slots_end,
+           w->once, acct, w->exec_ok, w->value_ok, w->nosusp, w->w1, w->wall, leak_ok, stranded_ok, w->cbafter, w->lostwake, w->listwf, slots_end,
            w->detail.empty() ? "-" : w->detail.c_str());
     fflush(stdout);
     // the world is leaked on purpose when something is stranded (frames still reference it)
